@@ -77,10 +77,11 @@ class World:
 
 
 class Harness:
-    def __init__(self, pool, logger_level=None):
+    def __init__(self, pool, logger_level=None, aliases=False):
         self.pool = [tuple(p) for p in pool]
         self.logger_level = logger_level
-        self.config = {'pool': [list(p) for p in self.pool], 'logger_level': logger_level}
+        self.aliases = aliases          # use the deprecated camelCase entry points (addSystem / removeSystem / executeSystems)
+        self.config = {'pool': [list(p) for p in self.pool], 'logger_level': logger_level, 'aliases': aliases}
         self.ids = sorted({p[1] for p in self.pool}) + ['zz']
         self._ops = [['add', p[0]] for p in self.pool] + [['remove', i] for i in self.ids] + [['step']]
         self.cn = Canon(drop={('SystemManager', 'timestep')})
@@ -114,6 +115,12 @@ class Harness:
         w.ref = []          # list of (priority, seq, key)
         w.seq = 0
         w.last = ()
+        # a second model with systems of the same ids, stepped whenever the first one is: its order never changes
+        w.m2 = Core.Model(seed=2)
+        w.log2 = []
+        Rec2, _, _ = make_recorder(w.log2)
+        for key, prio in (('a', 0), ('c', 1), ('b', 0), ('k', -1)):
+            w.m2.systems.add_system(Rec2(key, key, w.m2, prio))
         return w
 
     def ops(self, w):
@@ -131,7 +138,7 @@ class Harness:
             reg = self._registered(w)
             before = self.public(w) if sid in reg else None
             try:
-                sm.add_system(w.objs[key])
+                (sm.addSystem if self.aliases else sm.add_system)(w.objs[key])
                 raised = None
             except KeyError as e:
                 raised = e
@@ -151,7 +158,7 @@ class Harness:
             reg = self._registered(w)
             before = self.public(w) if sid not in reg else None
             try:
-                sm.remove_system(sid)
+                (sm.removeSystem if self.aliases else sm.remove_system)(sid)
                 raised = None
             except Core.SystemNotFoundError as e:
                 raised = e
@@ -167,7 +174,15 @@ class Harness:
                     raise Violation(f'rejected remove_system({sid!r}) changed the scheduler state')
         elif kind == 'step':
             del w.log[:]
-            w.model.execute()
+            if self.aliases:
+                sm.executeSystems()
+            else:
+                w.model.execute()
+            del w.log2[:]
+            w.m2.execute()
+            if w.log2 != ['c', 'a', 'b', 'k']:
+                raise Violation('a second model with systems of the same ids was disturbed', expected=['c', 'a', 'b', 'k'],
+                                observed=list(w.log2))
             got = tuple(w.log)
             exp = tuple(k for _, _, k in sorted(w.ref, key=lambda r: (-r[0], r[1])))
             w.last = got
@@ -308,6 +323,11 @@ def run(ctx):
     if ctx.violations:
         return
     small = [('b', 'b', 0), ('a', 'a', 0), ('c', 'c', 1), ('k', 'k', None), ('k2', 'k', 0), ('a2', 'a', 1)]
+    ha = Harness(small, aliases=True)
+    r = hbfs.explore(ctx, ha, 'deprecated_entry_points', max_depth=40, procs=ctx.procs)
+    ctx.leg('deprecated_entry_points', **r)
+    if ctx.violations:
+        return
     for level in (logging.DEBUG, logging.ERROR):
         hl = Harness(small, logger_level=level)
         r = hbfs.explore(ctx, hl, f'logger_level_{level}', max_depth=40, procs=ctx.procs)
@@ -334,5 +354,5 @@ def replay(case):
     if case['leg'] == 'churn':
         hbfs._guard(churn_case, case)
         return
-    h = Harness(case['config']['pool'], case['config'].get('logger_level'))
+    h = Harness(case['config']['pool'], case['config'].get('logger_level'), case['config'].get('aliases', False))
     hbfs.replay_case(h, case)
